@@ -50,6 +50,8 @@ def run(tier, workers=None):
         return {"distinct_tags_observed": n}
 
     faults = {
+        # the fault phase runs on the core configurations (the special-purpose ones share the same write path)
+        "configs": [c for c in configs(tier) if "+" not in getattr(c, "label", "") or c.label.endswith("+cfgmeta")],
         "histories": [[("put", "cal", "a.ics", "X")], [("put", "cal", "a.ics", "X"), ("put", "cal", "b.ics", "Z")]],
         "ops": [("put", "cal", "a.ics", "X2"), ("put", "cal", "b.ics", "Z"), ("delete", "cal", "a.ics"), ("proppatch", "cal", "displayname", "d1")],
     }
